@@ -42,6 +42,14 @@ Definition conv_ok (k : skind) (v : str) : bool :=
   | SInt8 => some (parse_int 8 v')
   end.
 
+(* what a field holds after text [v] was converted into it: an empty text stands for the zero value of a number *)
+Definition stored (k : skind) (v : str) : str :=
+  match k, v with
+  | SString, _ => v
+  | _, [] => lit "0"
+  | _, _ => v
+  end.
+
 Definition cat (a b : result) : result :=
   match a, b with Writes x, Writes y => Writes (x ++ y) | _, _ => Error end.
 
@@ -68,10 +76,10 @@ Fixpoint bind_ty (fuel : nat) (t : ty) (d : data) (s : source) (pre : path) : re
                           | Some vals =>
                               match ft with
                               | TScalar k => match vals with
-                                             | v :: _ => if conv_ok k v then Writes [(pre ++ [i], [v])] else Error
+                                             | v :: _ => if conv_ok k v then Writes [(pre ++ [i], [stored k v])] else Error
                                              | [] => Writes []
                                              end
-                              | TSlice k => if forallb (conv_ok k) vals then Writes [(pre ++ [i], vals)] else Error
+                              | TSlice k => if forallb (conv_ok k) vals then Writes [(pre ++ [i], map (stored k) vals)] else Error
                               | TStruct _ => Error      (* unknown type: a tagged non-anonymous struct cannot be set from text *)
                               end
                           end
